@@ -1,5 +1,5 @@
 (* C07/Driver.v — entry points of the correspondence run (extracted to OCaml). *)
-From RM Require Import C07.Model C07.Text C07.Walker C06.Driver.
+From RM Require Import C07.Model C07.Text C07.Walker C07.WalkerFd C06.Driver.
 From RM Require C09.Grammar.
 Open Scope Z_scope.
 
@@ -138,3 +138,37 @@ Definition run_frames7_text (below : list (option Z)) (ctx : list (bytes * Z)) (
       | _ => out_panic
       end
   end.
+
+(* ---- front-end G (round 5): a WHOLE x86 walk from the context frame through STACK WIN records of both kinds
+   (C07/WalkerFd.v win_walk, the function c07_win_recovers_chain(_bp) are about).  The symbol file as walk_stack sees it
+   from an instruction pointer: every frame but the context frame is looked up at eip - 1 (the generator keeps eip and
+   eip - 1 of the context frame inside one function and one record), frame data preferred over FPO, parameter size from
+   the FUNC record covering the address (none = unknown). ---- *)
+Fixpoint func_psize (funcs : list (Z * Z * Z)) (a : Z) : option Z :=
+  match funcs with
+  | [] => None
+  | (fa, fs, ps) :: r => if (fa <=? a) && (a <? fa + fs) then Some ps else func_psize r a
+  end.
+
+Definition walk_lookup (recs : list rec) (funcs : list (Z * Z * Z)) (eip : Z) : option (win_info * option Z) :=
+  let a := eip - 1 - 1073741824 in
+  if (a <? 0) || (65536 <=? a) then None else
+  let f := build_sym recs (mkSym [] [] None) in
+  match win_table (sf_framedata f), win_table (sf_fpo f) with
+  | Ret fd, Ret fp =>
+      match C08.Model.rm_get fd a with
+      | Some i => Some (i, func_psize funcs a)
+      | None => match C08.Model.rm_get fp a with
+                | Some i => Some (i, func_psize funcs a)
+                | None => None
+                end
+      end
+  | _, _ => None
+  end.
+
+Definition run_walk7 (ctx : list (bytes * Z)) (stackbase : Z) (stack : bytes) (funcs : list (Z * Z * Z)) (recs : list rec)
+  : list xregs :=
+  let g := fun n => match assoc n ctx with Some v => v | None => 0 end in
+  win_walk 64 (mem_read 4 stackbase stack)
+           (fun sp => match mem_read 1 stackbase stack sp with Some _ => true | None => false end)
+           (walk_lookup recs funcs) [] (mkX (g N_eip) (g N_esp) (g N_ebp)).
